@@ -157,8 +157,9 @@ type WorkloadSpec struct {
 }
 
 type PriorityClassSpec struct {
-	Name  string `json:"name"`
-	Value int32  `json:"value"`
+	Name          string `json:"name"`
+	Value         int32  `json:"value"`
+	GlobalDefault bool   `json:"global_default,omitempty"`
 }
 
 type TopologySpec struct {
@@ -533,7 +534,7 @@ func (w *World) Objects() []runtime.Object {
 	for _, pc := range w.PriorityClasses {
 		out = append(out, &schedulingv1.PriorityClass{
 			TypeMeta:   metav1.TypeMeta{APIVersion: "scheduling.k8s.io/v1", Kind: "PriorityClass"},
-			ObjectMeta: metav1.ObjectMeta{Name: pc.Name, UID: types.UID("pc-" + pc.Name)}, Value: pc.Value})
+			ObjectMeta: metav1.ObjectMeta{Name: pc.Name, UID: types.UID("pc-" + pc.Name)}, Value: pc.Value, GlobalDefault: pc.GlobalDefault})
 	}
 	for _, t := range w.Topologies {
 		out = append(out, BuildTopology(t))
